@@ -29,10 +29,24 @@ def _t(x):
     return current().ex.term_of_refu(x)
 
 
+def _read_axiom(pred, sv):
+    """definitional: only txn / gtxn / gtxns results are transaction-field reads"""
+    from pyvc.dsl import current
+    from pyvc.state import initial_heap_array
+    from spec.avm_axioms import cls_is
+    ctx = current()
+    I = z3.IntSort()
+    ins = z3.Select(ctx.st.harr("F:KnownStackValue._ins", I, I), _t(sv))
+    ctx.st.pc.append(z3.Implies(pred, z3.Or(cls_is(ctx.ex, ins, "Txn"), cls_is(ctx.ex, ins, "Gtxn"),
+                                            cls_is(ctx.ex, ins, "Gtxns"))))
+
+
 def is_field_read(key, sv):
     if not isinstance(sv, V):
         return N.native_is_field_read(key, sv)
-    return VBool(ISFIELDREAD(_s(key), _t(sv)))
+    p = ISFIELDREAD(_s(key), _t(sv))
+    _read_axiom(p, sv)
+    return VBool(p)
 
 
 def keydef(v, key):
@@ -63,3 +77,32 @@ def int_lit(ins):
     if not isinstance(ins, V):
         return N.native_int_lit(ins)
     return VInt(INTLIT(ins.term))
+
+
+def _clsid(c):
+    from pyvc.values import VClass, VUnion, TCls, to_term
+    if isinstance(c, str):
+        from spec.avm_axioms import cls_id
+        return z3.IntVal(cls_id(c))
+    if isinstance(c, VUnion):
+        for g, a in c.alts:
+            if isinstance(a, VClass):
+                return to_term(a, TCls(object))
+    return to_term(c, TCls(object))
+
+
+def is_field_read_f(key, sv, field_cls):
+    """as is_field_read, for an explicitly given transaction-field class (name, class or VClass)"""
+    if not isinstance(sv, V):
+        name = field_cls if isinstance(field_cls, str) else field_cls.__name__
+        return N.native_is_field_read(key, sv, name)
+    p = ISFIELDREAD_F(_s(key), _t(sv), _clsid(field_cls))
+    _read_axiom(p, sv)
+    return VBool(p)
+
+
+def keyfld_f(v, key, field_cls):
+    if isinstance(v, N.NativeVisit):
+        name = field_cls if isinstance(field_cls, str) else field_cls.__name__
+        return N.native_keyfld(v, key, name)
+    return VInt(KEYFLD_F(v.term, _s(key), _clsid(field_cls)))
